@@ -157,7 +157,8 @@ def base_disagreements(path, pcfg, folder='Grammar', skip_brute=False):
             reps.append(m.group(0))
             if m.group(1) == 'A':
                 reps.append('C' + m.group(2))
-        want.setdefault(tuple(reps), []).append(float(pr) / (1.0 - pm) if skip_brute and pm < 1.0 else float(pr))
+        # (a probability is at most 1: the loader clamps a rescaled value that rounding - or an ill-formed list - pushes above it)
+        want.setdefault(tuple(reps), []).append(min(1.0, float(pr) / (1.0 - pm)) if skip_brute and pm < 1.0 else float(pr))
     bad = set()
     for b in pcfg.base:
         cands = want.get(tuple(b['replacements']), [])
